@@ -20,6 +20,15 @@ pub enum Case {
     W2(crate::w2_ops::W2Script),
     /// a callback-taking operation with an injected panic at a chosen callback invocation
     W3(crate::w3::W3Script),
+    /// one boundary-size request at one entry point (C19)
+    W6(crate::w67::W6Script),
+    /// capacity / growth workload (C18)
+    W7(crate::w67::W7Script),
+    /// several arenas, each with its own history, run solo and then interleaved by a recorded
+    /// schedule; every arena's trace must be the same both ways (C20)
+    W4 { scripts: Vec<W1Script>, schedule: Vec<u8> },
+    /// constructor table: unsupported minimum alignments are refused with a panic (C04)
+    W8,
 }
 
 #[derive(Clone, Debug, Serialize, Deserialize)]
@@ -57,7 +66,7 @@ pub fn focus_of(prop: &str) -> Option<&'static str> {
 }
 
 pub fn exec_w1(script: &W1Script, opts: ExecOpts, k: usize) -> RunReport {
-    simalloc::begin_run(script.placement);
+    simalloc::begin_run(opts.placement.unwrap_or(script.placement));
     simalloc::set_plan(opts.arena, script.plan);
     track::reset_ledger();
     let rep = match script.min_align {
@@ -67,8 +76,18 @@ pub fn exec_w1(script: &W1Script, opts: ExecOpts, k: usize) -> RunReport {
         8 => w1::Exec::<8>::new(script, opts, k).run(),
         _ => w1::Exec::<16>::new(script, opts, k).run(),
     };
+    let static_ok = sentinel_intact();
     let end = simalloc::end_run();
     let mut rep = rep;
+    if rep.violations.is_empty() && !static_ok {
+        rep.violations.push(Violation {
+            prop: "C20".into(),
+            sig: "C20/shared-static-changed".into(),
+            op: "end".into(),
+            at: script.ops.len(),
+            detail: "a fresh arena no longer looks fresh after this history (state leaked through the shared static)".into(),
+        });
+    }
     if rep.violations.is_empty() && end.write_after_free > 0 {
         rep.violations.push(Violation {
             prop: "C03".into(),
@@ -142,6 +161,182 @@ fn compare_traces(prop: &str, oracle: &str, a: &RunReport, b: &RunReport, out: &
 /// when set, every case is appended to this file before it is executed (crash attribution)
 pub static TRACE: std::sync::Mutex<Option<std::fs::File>> = std::sync::Mutex::new(None);
 
+fn boxed_exec<'s>(script: &'s W1Script, opts: ExecOpts, k: usize) -> Box<dyn crate::w1_arena::Driver + 's> {
+    match script.min_align {
+        1 => Box::new(w1::Exec::<1>::new(script, opts, k)),
+        2 => Box::new(w1::Exec::<2>::new(script, opts, k)),
+        4 => Box::new(w1::Exec::<4>::new(script, opts, k)),
+        8 => Box::new(w1::Exec::<8>::new(script, opts, k)),
+        _ => Box::new(w1::Exec::<16>::new(script, opts, k)),
+    }
+}
+
+/// the static sentinel every chunk-less arena points at must be as it was at start-up
+pub fn sentinel_intact() -> bool {
+    let r = simalloc::arena_call(7, || {
+        let b = bumpalo::Bump::new();
+        let ok = b.chunk_capacity() == 0 && b.allocated_bytes() == 0;
+        let z = b.alloc_layout(std::alloc::Layout::from_size_align(0, 1).unwrap()).as_ptr() as usize;
+        ok && z == simalloc::sentinel() && b.chunk_capacity() == 0
+    });
+    let mut ev = Vec::new();
+    simalloc::take_events(&mut ev);
+    matches!(r, Ok(true))
+}
+
+fn run_w4(scripts: &[W1Script], schedule: &[u8], ctx: &Ctx) -> CaseResult {
+    let mut viol: Vec<Violation> = Vec::new();
+    let mut stats = Stats::default();
+    // solo
+    let mut solo = Vec::new();
+    for (i, s) in scripts.iter().enumerate() {
+        let opts = ExecOpts { arena: i as u32, focus: ctx.focus, placement: Some(scripts[0].placement), ..Default::default() };
+        let rep = exec_w1(s, opts, ctx.k);
+        if !rep.violations.is_empty() {
+            return CaseResult { violations: rep.violations, side: rep.side, stats: rep.stats, fp: rep.fp, requests: 0, request_sizes: Vec::new() };
+        }
+        stats.merge(&rep.stats);
+        solo.push(rep);
+    }
+    // interleaved
+    simalloc::begin_run(scripts[0].placement);
+    track::reset_ledger();
+    let mut drivers: Vec<Option<Box<dyn crate::w1_arena::Driver + '_>>> = Vec::new();
+    for (i, s) in scripts.iter().enumerate() {
+        simalloc::set_plan(i as u32, s.plan);
+        let opts = ExecOpts { arena: i as u32, focus: ctx.focus, ..Default::default() };
+        drivers.push(Some(boxed_exec(s, opts, ctx.k)));
+    }
+    let n = drivers.len();
+    let mut started = vec![false; n];
+    let mut live = vec![true; n];
+    let mut inter: Vec<Option<w1::RunReport>> = (0..n).map(|_| None).collect();
+    let mut fp = Fp::new();
+    let mut order = schedule.iter().map(|&x| x as usize % n).collect::<Vec<_>>();
+    // make sure everything finishes: after the recorded schedule, round-robin
+    for _ in 0..2048 {
+        order.extend(0..n);
+    }
+    for a in order {
+        if !live[a] {
+            continue;
+        }
+        fp.mix(a as u64 + 1);
+        let d = drivers[a].as_mut().unwrap();
+        let more = if !started[a] {
+            started[a] = true;
+            d.d_begin();
+            true
+        } else {
+            d.d_step()
+        };
+        if !more {
+            live[a] = false;
+            let d = drivers[a].take().unwrap();
+            inter[a] = Some(d.d_finish());
+        }
+        if live.iter().all(|l| !l) {
+            break;
+        }
+    }
+    for a in 0..n {
+        if let Some(d) = drivers[a].take() {
+            inter[a] = Some(d.d_finish());
+        }
+    }
+    let ok_static = sentinel_intact();
+    simalloc::end_run();
+    stats.hit("w4_interleaved_run");
+    for a in 0..n {
+        let rep = inter[a].take().unwrap();
+        stats.merge(&rep.stats);
+        if !rep.violations.is_empty() {
+            // a violation that shows up only when other arenas are around is an isolation failure
+            for v in &rep.violations {
+                viol.push(v.clone());
+            }
+            viol.push(Violation {
+                prop: "C20".into(),
+                sig: "C20/violation-only-when-interleaved".into(),
+                op: rep.violations[0].op.clone(),
+                at: rep.violations[0].at,
+                detail: format!("arena {} alone is clean; interleaved: {}", a, rep.violations[0].sig),
+            });
+            continue;
+        }
+        let before = viol.len();
+        compare_traces("C20", "interleaved-trace-differs-from-solo", &solo[a], &rep, &mut viol);
+        if viol.len() > before {
+            let d = format!("arena {} of {}: {}", a, n, viol.last().unwrap().detail);
+            viol.last_mut().unwrap().detail = d;
+        }
+    }
+    if viol.is_empty() && !ok_static {
+        viol.push(Violation {
+            prop: "C20".into(),
+            sig: "C20/shared-static-changed".into(),
+            op: "end".into(),
+            at: 0,
+            detail: "a fresh arena no longer looks fresh after the run".into(),
+        });
+    }
+    CaseResult { violations: viol, side: Vec::new(), stats, fp: fp.0 ^ solo.iter().fold(0, |a, r| a ^ r.fp), requests: 0, request_sizes: Vec::new() }
+}
+
+fn run_w8() -> CaseResult {
+    use bumpalo::Bump;
+    simalloc::begin_run(simalloc::Placement::Fixed(0));
+    let mut viol = Vec::new();
+    let mut stats = Stats::default();
+    macro_rules! ctor3 {
+        ($n:expr) => {{
+            let a = simalloc::arena_call(0, || drop(Bump::<$n>::with_min_align())).is_err();
+            let b = simalloc::arena_call(0, || drop(Bump::<$n>::with_min_align_and_capacity(100))).is_err();
+            let c = simalloc::arena_call(0, || drop(Bump::<$n>::try_with_min_align_and_capacity(100))).is_err();
+            let d = simalloc::arena_call(0, || drop(Bump::<$n>::try_with_min_align_and_capacity(0))).is_err();
+            [a, b, c, d]
+        }};
+    }
+    let mut check = |n: usize, got: [bool; 4], want_panic: bool| {
+        stats.hit("w8_constructor_checked");
+        for (i, g) in got.iter().enumerate() {
+            if *g != want_panic {
+                let name = ["with_min_align", "with_min_align_and_capacity", "try_with_min_align_and_capacity(100)", "try_with_min_align_and_capacity(0)"][i];
+                viol.push(Violation {
+                    prop: "C04".into(),
+                    sig: format!("C04/constructor-{}", if want_panic { "accepted-unsupported-min-align" } else { "refused-supported-min-align" }),
+                    op: name.into(),
+                    at: 0,
+                    detail: format!("MIN_ALIGN = {}: {} {}", n, name, if *g { "panicked" } else { "did not panic" }),
+                });
+            }
+        }
+    };
+    check(1, ctor3!(1), false);
+    check(2, ctor3!(2), false);
+    check(4, ctor3!(4), false);
+    check(8, ctor3!(8), false);
+    check(16, ctor3!(16), false);
+    check(0, ctor3!(0), true);
+    check(3, ctor3!(3), true);
+    check(5, ctor3!(5), true);
+    check(6, ctor3!(6), true);
+    check(7, ctor3!(7), true);
+    check(9, ctor3!(9), true);
+    check(12, ctor3!(12), true);
+    check(24, ctor3!(24), true);
+    check(32, ctor3!(32), true);
+    check(64, ctor3!(64), true);
+    check(4096, ctor3!(4096), true);
+    check(usize::MAX, ctor3!({ usize::MAX }), true);
+    let mut ev = Vec::new();
+    simalloc::take_events(&mut ev);
+    simalloc::end_run();
+    stats.steps += 1;
+    stats.hit("alloc_fast_path");
+    CaseResult { violations: viol, side: Vec::new(), stats, fp: 0x8888, requests: 0, request_sizes: Vec::new() }
+}
+
 fn w2_result(rep: crate::w2::W2Report) -> CaseResult {
     CaseResult {
         violations: rep.violations,
@@ -163,6 +358,16 @@ pub fn run_case(case: &Case, ctx: &Ctx) -> CaseResult {
     }
     match case {
         Case::W2(s) => w2_result(crate::w2::exec_w2(s)),
+        Case::W4 { scripts, schedule } => run_w4(scripts, schedule, ctx),
+        Case::W8 => run_w8(),
+        Case::W6(s) => {
+            let rep = crate::w67::exec_w6(s);
+            CaseResult { violations: rep.violations, side: Vec::new(), stats: rep.stats, fp: rep.fp, requests: 0, request_sizes: Vec::new() }
+        }
+        Case::W7(s) => {
+            let rep = crate::w67::exec_w7(s, ctx.k);
+            CaseResult { violations: rep.violations, side: Vec::new(), stats: rep.stats, fp: rep.fp, requests: 0, request_sizes: Vec::new() }
+        }
         Case::W3(s) => {
             let rep = crate::w3::exec_w3(s);
             CaseResult {
